@@ -143,3 +143,51 @@ func ZZC18Check() {
 	zzAssert(len(files) == 1, "C18 -c: no other file is created")
 	zzWitness("end")
 }
+
+// ZZC18Txtar: archives with several .evy members of every content class in
+// every order, with -w and with -c: one member that does not parse (wherever
+// it sits) leaves the archive untouched with an error; -c exits zero exactly
+// when every member is formatted; -w rewrites every member and nothing else.
+func ZZC18Txtar() {
+	M := zzParam("M", 2)
+	n := 2 + zzChoice("members", M-1)
+	write := zzChoice("write", 2) == 1
+	orig, want := "comment\n", "comment\n"
+	allParse, allFormatted := true, true
+	for k := 0; k < n; k++ {
+		src := zzC18Sources[zzChoice("content", len(zzC18Sources))]
+		formatted, ferr := format([]byte(src), false)
+		name := "-- m" + string(rune('a'+k)) + ".evy --\n"
+		orig += name + src
+		want += name + formatted
+		if ferr != nil {
+			allParse = false
+		} else if formatted != src {
+			allFormatted = false
+		}
+		if k == 0 {
+			orig += "-- notes.txt --\nkeep   me\n"
+			want += "-- notes.txt --\nkeep   me\n"
+		}
+	}
+	path := zzFSPath("a.txtar")
+	zzFSPut(path, orig, 0o644)
+	err := (&fmtCmd{Write: write, Check: !write, Files: []string{path}}).Run()
+	data, m, ok := zzFSGet(path)
+	zzAssert(ok && m == 0o644, "C18 txtar: the archive still exists with its permission bits")
+	switch {
+	case !allParse:
+		zzReach("txtar-unparsable")
+		zzAssert(err != nil, "C18 txtar: a member that does not parse gives an error (non-zero exit), wherever it sits in the archive")
+		zzAssert(data == orig, "C18 txtar: an archive with a member that does not parse is left untouched")
+	case !write:
+		zzReach("txtar-check")
+		zzAssert((err == nil) == allFormatted, "C18 txtar: -c exits zero exactly when every member is already formatted")
+		zzAssert(data == orig, "C18 txtar: -c modifies nothing")
+	default:
+		zzReach("txtar-write")
+		zzAssert(err == nil && data == want, "C18 txtar: -w formats every .evy member and leaves the other members alone")
+	}
+	zzAssert(len(zzFSFiles()) == 1, "C18 txtar: no temporary file is left behind")
+	zzWitness("end")
+}
